@@ -63,6 +63,9 @@ def r2_op_table(rep, ctx):
         fn, ret, callee, lams, args = dispatch.db_operation_facts(m, opname)
         want_exp, want_val = dispatch.DB_OPS[opname]
         why = []
+        for xr in dispatch.db_operation_facts.extra_returns:
+            rep.bad("C04.R2", "UnitDatabase.%s:extra-return:%s" % (opname, norm(ast.unparse(xr))[:50]), "UnitDatabase.%s can return `%s` without going through the shared new-quantity routine: exponents are not merged / values not combined by the one algorithm the other clauses are checked on"
+                    % (opname, norm(ast.unparse(xr))[:80]), node=xr, fn=fn)
         if callee != "_DoOperationResultingInNewQuantity":
             why.append("delegates to %s instead of the new-quantity routine" % callee)
         if args != fn.params[1:5]:
